@@ -1,0 +1,41 @@
+//go:build verif
+
+package storage
+
+import (
+	"sync"
+
+	"github.com/MixinNetwork/mixin/config"
+	"github.com/dgraph-io/badger/v4"
+	"github.com/dgraph-io/badger/v4/options"
+)
+
+// VerifC21NewBadgerStore is VerifNewBadgerStore with SyncWrites selectable for the snapshots
+// database: the long-history crash workloads of C21 write thousands of commits and copy the
+// live directory from the same process (the page cache already holds every write), so they
+// skip the per-commit fsync. Every other option is the one openDB sets.
+func VerifC21NewBadgerStore(custom *config.Custom, dir string, memTableSize int64, syncWrites bool) (*BadgerStore, error) {
+	open := func(dir string, sw bool) (*badger.DB, error) {
+		opts := badger.DefaultOptions(dir)
+		opts = opts.WithSyncWrites(sw)
+		opts = opts.WithCompression(options.None)
+		opts = opts.WithBlockCacheSize(0)
+		opts = opts.WithIndexCacheSize(0)
+		opts = opts.WithMetricsEnabled(false)
+		opts = opts.WithLoggingLevel(badger.WARNING)
+		opts = opts.WithBaseLevelSize(16 << 20)
+		opts = opts.WithLevelSizeMultiplier(16)
+		opts = opts.WithMaxLevels(7)
+		opts = opts.WithMemTableSize(memTableSize)
+		return badger.Open(opts)
+	}
+	snapshotsDB, err := open(dir+"/snapshots", syncWrites)
+	if err != nil {
+		return nil, err
+	}
+	cacheDB, err := open(dir+"/cache", false)
+	if err != nil {
+		return nil, err
+	}
+	return &BadgerStore{custom: custom, snapshotsDB: snapshotsDB, cacheDB: cacheDB, mutex: new(sync.RWMutex)}, nil
+}
